@@ -82,6 +82,20 @@ def case_table(ctx, program, rid):
     ctx.check(k3 == "return" and k4 == "return" and "async_remove" not in ev4, rid, REM, "two spellings in one context: the service stays while one declaration is alive",
               msg=f"ctxA declares tools.Ping and tools.ping (one Home Assistant service); removing tools.ping gives {ev4}: the service is removed although tools.Ping still declares it",
               key="case remove", node=program.func(REM), rel="function.py")
+    # ... in either order: the spelling removed first may be the one that differs from the lower-cased name
+    k6, e6, ev6, h6 = step(REM, h3, "ctxA", "tools", "Ping")
+    ctx.check(k3 == "return" and k6 == "return" and "async_remove" not in ev6, rid, REM, "two spellings in one context, the capitalised one removed first: the service stays",
+              msg=f"ctxA declares tools.Ping and tools.ping (one Home Assistant service); removing tools.Ping gives {ev6}: the service is removed although tools.ping still declares it "
+              f"(register and remove have to agree on the key of a service)", key="case remove capitalised first", node=program.func(REM), rel="function.py")
+    k7, e7, ev7, h7 = step(REM, h6, "ctxA", "tools", "ping")
+    ctx.check(k7 == "return" and ev7 == ["async_remove"], rid, REM, "the last declaration removes the service (other order)", msg=f"removing the last spelling gives {ev7}",
+              key="case last remove, other order", node=program.func(REM), rel="function.py")
+    # one declaration under a capitalised name: its removal unregisters the service and frees the name for another context
+    k8, e8, ev8, h8 = step(REM, h1, "ctxA", "tools", "Ping")
+    k9, e9, ev9, h9 = step(REG, h8, "ctxB", "tools", "ping")
+    ctx.check(k8 == "return" and ev8 == ["async_remove"] and k9 == "return" and ev9 == ["async_register"], rid, REM, "a capitalised declaration is released completely",
+              msg=f"ctxA declares tools.Ping and removes it ({k8} {ev8}); ctxB then declaring tools.ping ends with {k9} {e9} {ev9}: the owner record of the removed service is still there",
+              key="case release capitalised", node=program.func(REM), rel="function.py")
     k5, e5, ev5, h5 = step(REM, h4, "ctxA", "tools", "Ping")
     ctx.check(k5 == "return" and ev5 == ["async_remove"], rid, REM, "the last declaration removes the service", msg=f"removing the last spelling gives {ev5}", key="case last remove",
               node=program.func(REM), rel="function.py")
@@ -127,7 +141,7 @@ def run(ctx):
     refcount_table(ctx, program, "R12.1")
 
     ctx.rule("R12.10", "Home Assistant lower-cases domain and service names, so 'tools.Ping' and 'tools.ping' are one service: the reference count and the owner are kept per "
-             "service, not per spelling - a second context is refused whatever case it uses, and removing one spelling does not remove the service another declaration still uses", floor=3)
+             "service, not per spelling - a second context is refused whatever case it uses, and removing one spelling (whichever comes first) does not remove the service another declaration still uses, and a removed one leaves no owner behind", floor=6)
     case_table(ctx, program, "R12.10")
     ctx.rule("R12.2", "every registration site passes the global context name as owner, the removal site passes the same, and each registered name is recorded for removal", floor=4)
     sites = []
